@@ -272,6 +272,331 @@ theorem intersect_subgrid_range {coarse fine : Geom α} {cells : List Int} {a : 
     obtain ⟨i, -, rfl⟩ := List.mem_map.1 hr
     simp
 
+/-- the weight grid holds the weight of every listed cell at `(row - rows_start, col - cols_start)`, its row and
+column in the parent grid shifted by the recorded starts -/
+theorem intersect_weight_placed {coarse fine : Geom α} {cells : List Int} {a : AreaGrid α}
+    (hc : 0 < coarse.ncols) (h : intersect coarse fine cells = .ok a) {k : Int} {w : α}
+    (hkw : (k, w) ∈ a.keys.zip a.weights) :
+    0 ≤ prow coarse k - a.rowStart ∧ 0 ≤ pcol coarse k - a.colStart ∧
+    a.at (prow coarse k - a.rowStart).toNat (pcol coarse k - a.colStart).toNat = some w := by
+  obtain ⟨kw0, rest, heq, -, -, -, -, -, -, -, -, hnr, hnc, hd⟩ := intersect_eq_ok h
+  rw [(intersect_lists h).1, heq] at hkw
+  have hkm : k ∈ a.keys := by
+    have := (intersect_lists h).1
+    rw [heq] at this
+    have h2 : k ∈ (a.keys.zip a.weights).map Prod.fst := by
+      rw [this]; exact List.mem_map.2 ⟨(k, w), hkw, rfl⟩
+    rw [List.map_fst_zip (by rw [(intersect_lists h).2.1])] at h2
+    exact h2
+  obtain ⟨r0, r1, c0, c1⟩ := (intersect_subgrid_range h).1 k hkm
+  have hnd : (keys (kw0 :: rest)).Nodup := by
+    have := cIntersect_keys_nodup coarse fine.csz (cells.map (cell2coord fine))
+    rwa [heq] at this
+  have hv : ∀ k' ∈ keys (kw0 :: rest), validCell coarse.nrows coarse.ncols k' = true := by
+    intro k' hk'
+    apply cIntersect_keys_valid coarse fine.csz (cells.map (cell2coord fine))
+    rw [heq]; exact hk'
+  refine ⟨by omega, by omega, ?_⟩
+  rw [AreaGrid.at_of_data hd (by omega) (by omega), scatterFn_eq,
+    Int.toNat_of_nonneg (by omega), Int.toNat_of_nonneg (by omega)]
+  exact congrArg some (foldl_assign_mem hc _ _ hnd hv hkw)
+
+/-- every other entry of the weight grid is 0 -/
+theorem intersect_zero_elsewhere {coarse fine : Geom α} {cells : List Int} {a : AreaGrid α}
+    (h : intersect coarse fine cells = .ok a) {i j : Nat} (hi : i < a.nrows.toNat) (hj : j < a.ncols.toNat)
+    (hno : ∀ k ∈ a.keys, ¬ (prow coarse k = a.rowStart + i ∧ pcol coarse k = a.colStart + j)) :
+    a.at i j = some 0 := by
+  obtain ⟨kw0, rest, -, hk, -, -, -, -, -, -, -, -, -, hd⟩ := intersect_eq_ok h
+  rw [AreaGrid.at_of_data hd hi hj, scatterFn_eq, foldl_assign_untouched]
+  intro k hkm hpos
+  apply hno k (by rw [hk]; exact hkm)
+  simp only [prow, pcol]
+  constructor <;> omega
+
+/-- the corner of the weight grid is the lower-left corner of the parent cell at `(rows_end, cols_start)` -/
+theorem intersect_subgrid_corner {coarse fine : Geom α} {cells : List Int} {a : AreaGrid α}
+    (hcsz : 0 < coarse.csz) (h : intersect coarse fine cells = .ok a) :
+    a.xll = coarse.xll + coarse.csz * (a.colStart : α) ∧
+    a.yll = coarse.yll + coarse.csz * ((coarse.nrows - 1 - a.rowEnd : Int) : α) := by
+  obtain ⟨kw0, rest, heq, -, -, -, hre, hcs, -, hx, hy, -⟩ := intersect_eq_ok h
+  have hv : ∀ kw ∈ kw0 :: rest, validCell coarse.nrows coarse.ncols kw.1 = true := by
+    intro kw hkw
+    apply cIntersect_keys_valid coarse fine.csz (cells.map (cell2coord fine))
+    rw [heq]; exact List.mem_map.2 ⟨kw, hkw, rfl⟩
+  have hcol : ∀ kw ∈ kw0 :: rest, pcol coarse kw.1 = colOf coarse.ncols kw.1 := by
+    intro kw hkw; unfold pcol cell2rowcol; rw [if_pos (hv kw hkw)]
+  have hrow : ∀ kw ∈ kw0 :: rest, prow coarse kw.1 = rowOf coarse.ncols kw.1 := by
+    intro kw hkw; unfold prow cell2rowcol; rw [if_pos (hv kw hkw)]
+  let fx : Int → α := fun c => coarse.xll + coarse.csz * ((c : α) + 1 / 2)
+  let fy : Int → α := fun r => coarse.yll + coarse.csz * (((coarse.nrows - 1 - r : Int) : α) + 1 / 2)
+  have mfx : Monotone fx := by
+    intro p q hpq
+    have : (p : α) ≤ (q : α) := by exact_mod_cast hpq
+    simp only [fx]; nlinarith
+  have mfy : Antitone fy := by
+    intro p q hpq
+    have : ((coarse.nrows - 1 - q : Int) : α) ≤ ((coarse.nrows - 1 - p : Int) : α) := by
+      exact_mod_cast (by omega : coarse.nrows - 1 - q ≤ coarse.nrows - 1 - p)
+    simp only [fy]; nlinarith
+  have ex : ∀ kw ∈ kw0 :: rest, (getcoord coarse kw.1).1 = fx (pcol coarse kw.1) := by
+    intro kw hkw; rw [hcol kw hkw]; simp [getcoord, fx]
+  have ey : ∀ kw ∈ kw0 :: rest, (getcoord coarse kw.1).2 = fy (prow coarse kw.1) := by
+    intro kw hkw; rw [hrow kw hkw]; simp [getcoord, fy]
+  have lx : (rest.map fun kw => (getcoord coarse kw.1).1) = (rest.map fun kw => pcol coarse kw.1).map fx := by
+    rw [List.map_map]
+    exact List.map_congr_left fun kw hkw => ex kw (List.mem_cons_of_mem _ hkw)
+  have ly : (rest.map fun kw => (getcoord coarse kw.1).2) = (rest.map fun kw => prow coarse kw.1).map fy := by
+    rw [List.map_map]
+    exact List.map_congr_left fun kw hkw => ey kw (List.mem_cons_of_mem _ hkw)
+  constructor
+  · rw [hx, ex kw0 (by simp), lx, listMin_map_mono mfx, ← hcs]
+    simp only [fx]; ring
+  · rw [hy, ey kw0 (by simp), ly, listMin_map_anti mfy, ← hre]
+    simp only [fy]; ring
+
+/-- cell `(i, j)` of the weight grid is the parent cell `(i + rows_start, j + cols_start)`: that parent cell
+exists and both have the same centre (hence, with the common cell size, the same footprint) -/
+theorem intersect_subgrid_cell_centre {coarse fine : Geom α} {cells : List Int} {a : AreaGrid α}
+    (hcsz : 0 < coarse.csz) (hc : 0 < coarse.ncols) (h : intersect coarse fine cells = .ok a) {i j : Int}
+    (hi : 0 ≤ i ∧ i < a.nrows) (hj : 0 ≤ j ∧ j < a.ncols) :
+    validCell coarse.nrows coarse.ncols ((i + a.rowStart) * coarse.ncols + (j + a.colStart)) = true ∧
+    getcoord (⟨a.nrows, a.ncols, a.xll, a.yll, coarse.csz⟩ : Geom α) (i * a.ncols + j) =
+      getcoord coarse ((i + a.rowStart) * coarse.ncols + (j + a.colStart)) := by
+  obtain ⟨-, ⟨k1, hk1, e1⟩, ⟨k2, hk2, e2⟩, ⟨k3, hk3, e3⟩, ⟨k4, hk4, e4⟩, hnr, hnc, -⟩ := intersect_subgrid_range h
+  have hvk : ∀ k ∈ a.keys, validCell coarse.nrows coarse.ncols k = true := by
+    intro k hk
+    obtain ⟨kw0, rest, heq, hkeys, -⟩ := intersect_eq_ok h
+    apply cIntersect_keys_valid coarse fine.csz (cells.map (cell2coord fine))
+    rw [heq, ← hkeys]; exact hk
+  have rc : ∀ k ∈ a.keys, 0 ≤ prow coarse k ∧ prow coarse k < coarse.nrows ∧ 0 ≤ pcol coarse k ∧
+      pcol coarse k < coarse.ncols := by
+    intro k hk
+    have hv := hvk k hk
+    obtain ⟨r0, r1, c0, c1, -⟩ := valid_rowcol hc hv
+    simp only [prow, pcol, cell2rowcol, if_pos hv]
+    exact ⟨r0, r1, c0, c1⟩
+  have b1 := rc k1 hk1; have b2 := rc k2 hk2; have b3 := rc k3 hk3; have b4 := rc k4 hk4
+  rw [e1] at b1; rw [e2] at b2; rw [e3] at b3; rw [e4] at b4
+  obtain ⟨hx, hy⟩ := intersect_subgrid_corner hcsz h
+  have hr0 : 0 ≤ i + a.rowStart := by omega
+  have hr1 : i + a.rowStart < coarse.nrows := by omega
+  have hc0 : 0 ≤ j + a.colStart := by omega
+  have hc1 : j + a.colStart < coarse.ncols := by omega
+  refine ⟨validCell_cellOf hr0 hr1 hc0 hc1, ?_⟩
+  have s1 : colOf a.ncols (i * a.ncols + j) = j := colOf_cellOf hi.1 hj.1 hj.2
+  have s2 : rowOf a.ncols (i * a.ncols + j) = i := rowOf_cellOf hi.1 hj.1 hj.2
+  have p1 : colOf coarse.ncols ((i + a.rowStart) * coarse.ncols + (j + a.colStart)) = j + a.colStart :=
+    colOf_cellOf hr0 hc0 hc1
+  have p2 : rowOf coarse.ncols ((i + a.rowStart) * coarse.ncols + (j + a.colStart)) = i + a.rowStart :=
+    rowOf_cellOf hr0 hc0 hc1
+  unfold getcoord
+  simp only [s1, s2, p1, p2, hx, hy, hnr, ofInt_eq, half_eq]
+  apply Prod.ext
+  · simp only []; push_cast; ring
+  · simp only []; push_cast; ring
+
 end Python
+
+/-! ### E. Voronoi weights (exact arithmetic; any distance function) -/
+
+section Voronoi
+variable {α : Type} [Field α] [LinearOrder α] [IsStrictOrderedRing α] [FloorRing α]
+variable (dist : α → α → α)
+
+/-- the point credited with a cell is the closest one, the lowest index among equidistant points: its distance
+is a minimum over all points and strictly below the distance of every point with a lower index — and it is the
+only index with that property -/
+theorem nearest_is_closest_lowest_index (g : Geom α) {pts : List (α × α)} (hp : pts ≠ []) (c : Int) (j : Nat) :
+    nearest (dists dist g pts c) = j ↔
+      ∃ p, pts[j]? = some p ∧
+        (∀ (k : Nat) (q : α × α), pts[k]? = some q →
+          dist ((getcoord g c).1 - p.1) ((getcoord g c).2 - p.2) ≤ dist ((getcoord g c).1 - q.1) ((getcoord g c).2 - q.2)) ∧
+        (∀ (k : Nat) (q : α × α), k < j → pts[k]? = some q →
+          dist ((getcoord g c).1 - p.1) ((getcoord g c).2 - p.2) < dist ((getcoord g c).1 - q.1) ((getcoord g c).2 - q.2)) := by
+  have hne : dists dist g pts c ≠ [] := by
+    unfold dists; simpa using hp
+  rw [nearest_eq_iff hne]
+  unfold IsFirstArgmin dists
+  simp only [List.getElem?_map]
+  constructor
+  · rintro ⟨m, h1, h2, h3⟩
+    cases hpj : pts[j]? with
+    | none => rw [hpj] at h1; cases h1
+    | some p =>
+      rw [hpj] at h1
+      simp only [Option.map_some, Option.some.injEq] at h1
+      subst h1
+      refine ⟨p, rfl, ?_, ?_⟩
+      · intro k q hq; exact h2 k _ (by rw [hq]; rfl)
+      · intro k q hk hq; exact h3 k _ hk (by rw [hq]; rfl)
+  · rintro ⟨p, hpj, h2, h3⟩
+    refine ⟨_, by rw [hpj]; rfl, ?_, ?_⟩
+    · intro k x hx
+      cases hq : pts[k]? with
+      | none => rw [hq] at hx; cases hx
+      | some q =>
+        rw [hq] at hx
+        simp only [Option.map_some, Option.some.injEq] at hx
+        subst hx
+        exact h2 k q hq
+    · intro k x hk hx
+      cases hq : pts[k]? with
+      | none => rw [hq] at hx; cases hx
+      | some q =>
+        rw [hq] at hx
+        simp only [Option.map_some, Option.some.injEq] at hx
+        subst hx
+        exact h3 k q hk hq
+
+/-- an empty list of points is rejected (error code of the kernel, `ValueError` in `grid.voronoi`) -/
+theorem cVoronoi_noPoints (g : Geom α) (cells : List Int) : cVoronoi dist g cells [] = .error .noPoints := by
+  simp [cVoronoi]
+
+/-- with no catchment cell every weight is NaN (`0.0/0.0`) -/
+theorem cVoronoi_noCells (g : Geom α) {pts : List (α × α)} (hp : pts ≠ []) :
+    cVoronoi dist g [] pts = .ok (pts.map fun _ => none) := by
+  have : ¬ pts.length < 1 := by
+    cases pts with
+    | nil => exact absurd rfl hp
+    | cons _ _ => simp
+  simp [cVoronoi, this]
+
+/-- with at least one point and one cell: one weight per point, none of them NaN, and weight `j` is the fraction
+of catchment cells whose closest point (lowest index on ties, `nearest_is_closest_lowest_index`) is point `j` -/
+theorem cVoronoi_weight (g : Geom α) {cells : List Int} {pts : List (α × α)} (hp : pts ≠ [])
+    (hcells : cells ≠ []) :
+    ∃ ws, cVoronoi dist g cells pts = .ok ws ∧ ws.length = pts.length ∧
+      ∀ j, j < pts.length →
+        ws[j]? = some (some (((cells.countP fun c => decide (nearest (dists dist g pts c) = j) : Nat) : α) /
+          (cells.length : α))) := by
+  have h1 : ¬ pts.length < 1 := by
+    cases pts with
+    | nil => exact absurd rfl hp
+    | cons _ _ => simp
+  have h2 : ¬ cells.length = 0 := by
+    cases cells with
+    | nil => exact absurd rfl hcells
+    | cons _ _ => simp
+  refine ⟨_, by simp only [cVoronoi, if_neg h1, if_neg h2]; rfl, ?_, ?_⟩
+  · simp [counts, foldl_incr_length]
+  · intro j hj
+    unfold counts
+    rw [List.getElem?_map, foldl_incr_getElem? (fun c => nearest (dists dist g pts c))]
+    simp [hj]
+
+/-- Voronoi weights are non-negative -/
+theorem cVoronoi_nonneg (g : Geom α) {cells : List Int} {pts : List (α × α)} {ws : List (Option α)}
+    (hcells : cells ≠ []) (h : cVoronoi dist g cells pts = .ok ws) : ∀ w ∈ ws, ∃ x, w = some x ∧ 0 ≤ x := by
+  have hp : pts ≠ [] := by
+    rintro rfl
+    rw [cVoronoi_noPoints] at h
+    cases h
+  obtain ⟨ws', h', hlen, hw⟩ := cVoronoi_weight dist g hp hcells
+  rw [h] at h'
+  injection h' with h'
+  subst h'
+  intro w hwm
+  obtain ⟨j, hj, rfl⟩ := List.getElem_of_mem hwm
+  have := hw j (by omega)
+  rw [List.getElem?_eq_getElem hj] at this
+  injection this with this
+  exact ⟨_, this, div_nonneg (Nat.cast_nonneg _) (Nat.cast_nonneg _)⟩
+
+/-- Voronoi weights sum to 1 -/
+theorem cVoronoi_sum_one (g : Geom α) {cells : List Int} {pts : List (α × α)} {ws : List (Option α)}
+    (hcells : cells ≠ []) (h : cVoronoi dist g cells pts = .ok ws) :
+    (ws.map fun w => w.getD 0).sum = 1 := by
+  have hp : pts ≠ [] := by
+    rintro rfl
+    rw [cVoronoi_noPoints] at h
+    cases h
+  have h1 : ¬ pts.length < 1 := by
+    cases pts with
+    | nil => exact absurd rfl hp
+    | cons _ _ => simp
+  have h2 : ¬ cells.length = 0 := by
+    cases cells with
+    | nil => exact absurd rfl hcells
+    | cons _ _ => simp
+  simp only [cVoronoi, if_neg h1, if_neg h2] at h
+  injection h with h
+  subst h
+  have hsum : (counts dist g cells pts).sum = (cells.length : α) := by
+    unfold counts
+    rw [foldl_incr_sum (fun c => nearest (dists dist g pts c))]
+    · simp
+    · intro c _
+      have hne : dists dist g pts c ≠ [] := by unfold dists; simpa using hp
+      have := nearest_lt_length hne
+      simpa [dists] using this
+  have hn : (cells.length : α) ≠ 0 := by exact_mod_cast h2
+  rw [List.map_map]
+  have hf : ((fun w : Option α => w.getD 0) ∘ fun w : α => some (w / C07.Trunc.ofInt (cells.length : Int))) =
+      fun w => w / (cells.length : α) := by
+    funext w; simp
+  rw [hf, sum_map_div, hsum, div_self hn]
+
+end Voronoi
+
+/-! ### the hypotheses are satisfiable: a 6×6 catchment grid against a 2×3 grid of cell size 2 shifted by (1, 1) -/
+
+/- at `ℚ` the theorems' `Trunc` instance (cast, floor of the ordered field) is preferred over the driver's `truncRat` -/
+attribute [local instance 2000] C07.fieldTrunc
+
+def exCoarse : Geom ℚ := ⟨2, 3, 1, 1, 2⟩
+def exFine : Geom ℚ := ⟨6, 6, 0, 0, 1⟩
+
+example : (0 : ℚ) < exCoarse.csz ∧ 0 < exCoarse.ncols ∧
+    ∀ c ∈ [27, 28, 21, 0], validCell exFine.nrows exFine.ncols c = true := by
+  refine ⟨by norm_num [exCoarse], by decide, by decide⟩
+
+/-- the centre of catchment cell 27 (row 4, column 3) is `(7/2, 3/2)`, inside the extent `[1,7) × [1,5)` -/
+example : getcoord exFine 27 = (7 / 2, 3 / 2) ∧ InExtent exCoarse (7 / 2) (3 / 2) := by
+  have h1 : colOf exFine.ncols 27 = 3 := by decide
+  have h2 : rowOf exFine.ncols 27 = 4 := by decide
+  constructor
+  · unfold getcoord
+    rw [h1, h2]
+    norm_num [exFine, ofInt_eq]
+  · unfold InExtent
+    norm_num [exCoarse]
+
+/-- the centre of catchment cell 0 (top-left) is `(1/2, 11/2)`, outside it -/
+example : getcoord exFine 0 = (1 / 2, 11 / 2) ∧ ¬ InExtent exCoarse (1 / 2) (11 / 2) := by
+  have h1 : colOf exFine.ncols 0 = 0 := by decide
+  have h2 : rowOf exFine.ncols 0 = 0 := by decide
+  constructor
+  · unfold getcoord
+    rw [h1, h2]
+    norm_num [exFine, ofInt_eq]
+  · unfold InExtent
+    norm_num [exCoarse]
+
+/-- so `intersect` succeeds on a cell list holding cell 27 -/
+example : ∃ a, intersect exCoarse exFine [27, 28, 21, 0] = .ok a := by
+  cases h : intersect exCoarse exFine [27, 28, 21, 0] with
+  | ok a => exact ⟨a, rfl⟩
+  | error e =>
+    exfalso
+    have hneg := ((intersect_error_iff _ _ _ _).1 h).2 27 (by simp)
+    have hv : validCell exFine.nrows exFine.ncols 27 = true := by decide
+    have h1 : colOf exFine.ncols 27 = 3 := by decide
+    have h2 : rowOf exFine.ncols 27 = 4 := by decide
+    have hin : InExtent exCoarse (getcoord exFine 27).1 (getcoord exFine 27).2 := by
+      unfold getcoord InExtent
+      rw [h1, h2]
+      norm_num [exFine, exCoarse, ofInt_eq]
+    have := (cellOfPt_nonneg_iff (g := exCoarse) (by norm_num [exCoarse]) _ _).2 hin
+    unfold cell2coord at hneg
+    rw [if_pos hv] at hneg
+    have e : (some (getcoord exFine 27) : Option (ℚ × ℚ)) = some ((getcoord exFine 27).1, (getcoord exFine 27).2) := rfl
+    rw [e] at hneg
+    omega
+
+/-- two equidistant points: the first one wins; a strictly closer later point wins -/
+example : nearest ([1, 1] : List ℚ) = 0 ∧ nearest ([2, 1, 1] : List ℚ) = 1 := by
+  constructor <;> simp [nearest, nearestLoop]
+
+example : ([(0, 0), (5, 5)] : List (ℚ × ℚ)) ≠ [] ∧ ([27, 28] : List Int) ≠ [] := by simp
 
 end HydroVerif.C16
